@@ -386,10 +386,15 @@ impl Array4 {
         let token_cells = (0..1u32 << lg_config_k)
             .filter(|&slot| cell(slot) == AUX_TOKEN)
             .count();
+        // (an exception is a value that does not fit the cell: at least cur_min + 15, at most 63)
         let (entries, entries_on_tokens) = match &aux_map {
             Some(aux) => (
                 aux.iter().count(),
-                aux.iter().all(|(slot, _)| cell(slot) == AUX_TOKEN),
+                aux.iter().all(|(slot, value)| {
+                    cell(slot) == AUX_TOKEN
+                        && value as u16 >= cur_min as u16 + AUX_TOKEN as u16
+                        && value <= 63
+                }),
             ),
             None => (0, true),
         };
@@ -397,6 +402,15 @@ impl Array4 {
             return Err(Error::deserial(
                 "exception table does not match the register cells",
             ));
+        }
+        // num_at_cur_min drives the cur_min shift: it is the number of cells holding 0
+        let at_cur_min = (0..1u32 << lg_config_k)
+            .filter(|&slot| cell(slot) == 0)
+            .count();
+        if num_at_cur_min as usize != at_cur_min {
+            return Err(Error::deserial(format!(
+                "num_at_cur_min is {num_at_cur_min} but {at_cur_min} registers are at cur_min"
+            )));
         }
 
         // Create estimator and restore state
